@@ -451,6 +451,65 @@ func runC12(c *Ctx) {
 			c.R.Ok(rule, "chpool.Pool", cfg, p.Pos(np.Pos()), sprintf("%d field stores, all in newPool before `go backgroundHealthCheck`", n))
 		}
 	}()
+	// ---- C12.globals
+	rule = "C12.globals"
+	c.R.Rule(rule, "package-level variables of the library are never assigned outside package initialisation (or they are sync / sync/atomic values, or the store is under a package-level mutex): independent clients, readers and pools share nothing mutable, so two connections used from two goroutines cannot race through library globals")
+	func() {
+		nG, bad := 0, false
+		for _, path := range []string{core.PkgCh, core.PkgProto, core.PkgCompress, core.PkgPool} {
+			for _, m := range p.SSA[path].Members {
+				if _, ok := m.(*ssa.Global); ok {
+					nG++
+				}
+			}
+		}
+		for _, fn := range p.Funcs() {
+			if pkgOf(fn) == nil || fn.Name() == "init" || strings.HasPrefix(fn.Name(), "init#") {
+				continue
+			}
+			top := fn
+			for top.Parent() != nil {
+				top = top.Parent()
+			}
+			if top.Name() == "init" || strings.HasPrefix(top.Name(), "init#") {
+				continue
+			}
+			for _, b := range fn.Blocks {
+				for _, in := range b.Instrs {
+					st, ok := in.(*ssa.Store)
+					if !ok {
+						continue
+					}
+					root := st.Addr
+					for {
+						switch x := root.(type) {
+						case *ssa.FieldAddr:
+							root = x.X
+							continue
+						case *ssa.IndexAddr:
+							root = x.X
+							continue
+						}
+						break
+					}
+					g, ok := root.(*ssa.Global)
+					if !ok || g.Pkg == nil || !core.IsLib(g.Pkg.Pkg) {
+						continue
+					}
+					if isSyncType(g.Type()) || underLock(fn, st) {
+						continue
+					}
+					bad = true
+					c.R.Bad(rule, core.FuncName(fn)+"/store-"+g.Name(), cfg, p.Pos(st.Pos()), "package-level variable "+g.Name()+" is assigned at run time without synchronisation: two independent connections (e.g. two users of one pool) race on it")
+				}
+			}
+		}
+		c.R.Count("package-level variables of the library", nG)
+		if !bad {
+			c.R.Ok(rule, "library globals", cfg, "", sprintf("%d package-level variables, none assigned outside init", nG))
+		}
+	}()
+
 	c.R.Assumptions = append(c.R.Assumptions,
 		"net.Conn, puddle.Pool, zap.Logger, errgroup and the sync types are safe for concurrent use; user callbacks are outside the library",
 		"no pointer analysis is available (go/pointer is absent from x/tools v0.29.0): effects are attributed through access paths rooted at the Client, the Pool, the context-value struct and the captured variables of Do",
